@@ -74,6 +74,7 @@ type CallSiteSpec struct {
 	Callee string
 	Tag    string
 	Clause *Clause
+	IsUse  bool // "callsite f use lemma(args)": assume a lemma instance at the call instead of asserting
 }
 
 type SpecFn struct {
@@ -469,15 +470,15 @@ func loadContracts(path string) (*PkgContracts, error) {
 				case "callsite":
 					// callsite <callee> assert [tag] <expr>
 					f := strings.Fields(rest)
-					if len(f) < 3 || f[1] != "assert" {
-						return nil, fail(l, "callsite: expected 'callsite <callee> assert <expr>'")
+					if len(f) < 3 || f[1] != "assert" && f[1] != "use" {
+						return nil, fail(l, "callsite: expected 'callsite <callee> assert <expr>' or 'callsite <callee> use lemma(args)'")
 					}
-					body := strings.TrimSpace(strings.TrimPrefix(strings.TrimSpace(rest[len(f[0]):]), "assert"))
+					body := strings.TrimSpace(strings.TrimPrefix(strings.TrimSpace(rest[len(f[0]):]), f[1]))
 					c, err := mkClause(l, body)
 					if err != nil {
 						return nil, err
 					}
-					curF.CallSites = append(curF.CallSites, &CallSiteSpec{Callee: f[0], Tag: c.Tag, Clause: c})
+					curF.CallSites = append(curF.CallSites, &CallSiteSpec{Callee: f[0], Tag: c.Tag, Clause: c, IsUse: f[1] == "use"})
 				case "nooverflow":
 					curF.NoOverflow = true
 				case "pure":
